@@ -147,12 +147,66 @@ def tlc_behaviours(spec, cfg_text, workdir, env, num, depth, seed, timeout=900, 
     return behs, r
 
 
+def _replay_once(args, timeout):
+    rc, out, dt = sh([os.path.join(BIN, 'replay')] + [str(a) for a in args], timeout=timeout, ok_codes=None)
+    return rc, out
+
+
 def replay_bin(args, timeout=1200):
+    """Run the replay binary.  args = [mode, (dag,) behaviours, out, ...].  If the process dies (an abort caused by
+    a panic inside a destructor during unwinding cannot be caught in-process) the offending behaviour is located
+    through the progress marker, reported as a mismatch with fields ["abort"], and the rest is replayed."""
     build_harness()
-    rc, out, dt = sh([os.path.join(BIN, 'replay')] + [str(a) for a in args], timeout=timeout)
-    m = re.search(r"REPLAY .*", out)
-    log("[replay]", m.group(0) if m else out[-300:])
-    return out
+    args = [str(a) for a in args]
+    bi = 2 if args[0] == "delivery" else 1
+    behs_path, out_path = args[bi], args[bi + 1]
+    lines = [l for l in open(behs_path).read().splitlines() if l.strip()]
+    total = {"behaviours": 0, "steps": 0, "inconclusive": 0, "mismatches": []}
+    offset = 0
+    rounds = 0
+    while True:
+        rounds += 1
+        part = behs_path + f".part{rounds}"
+        with open(part, "w") as f:
+            f.write("\n".join(lines[offset:]) + "\n")
+        a = list(args)
+        a[bi] = part
+        rc, out = _replay_once(a, timeout)
+        if rc == 0 and os.path.exists(out_path):
+            res = json.load(open(out_path))
+            for k in ("behaviours", "steps", "inconclusive"):
+                total[k] += res.get(k, 0)
+            total["mismatches"] += res["mismatches"]
+            os.remove(part)
+            break
+        # aborted: which behaviour?
+        try:
+            idx = int(open(out_path + ".progress").read().strip())
+        except Exception:
+            raise ToolError("replay binary failed without progress marker:\n" + out[-2000:])
+        bad = lines[offset + idx]
+        if idx > 0:   # replay the safe prefix to keep its results
+            with open(part, "w") as f:
+                f.write("\n".join(lines[offset:offset + idx]) + "\n")
+            rc2, out2 = _replay_once(a, timeout)
+            if rc2 == 0:
+                res = json.load(open(out_path))
+                for k in ("behaviours", "steps", "inconclusive"):
+                    total[k] += res.get(k, 0)
+                total["mismatches"] += res["mismatches"]
+        bj = json.loads(bad)
+        total["behaviours"] += 1
+        total["mismatches"].append({"behaviour": offset + idx, "step": len(bj) - 1, "fields": ["abort"],
+                                    "expected": bj[-1] if isinstance(bj, list) and bj else {}, "got": "process aborted (panic while panicking)",
+                                    "line": bj})
+        os.remove(part)
+        offset += idx + 1
+        if offset >= len(lines) or rounds > 40:
+            break
+    with open(out_path, "w") as f:
+        json.dump(total, f)
+    log(f"[replay] REPLAY behaviours={total['behaviours']} steps={total['steps']} mismatches={len(total['mismatches'])}")
+    return total
 
 
 class Run:
@@ -329,6 +383,48 @@ def load_known(pid):
     return out
 
 
+class H:
+    """helpers usable inside KNOWN_FINDINGS class_expr predicates (they only inspect logged events)"""
+
+    @staticmethod
+    def reg_before(call):
+        for o in call.get('before') or []:
+            if o['id'] == call.get('obj'):
+                if 'key' in call:
+                    for e in o.get('ents', []):
+                        if e['k'] == call['key']:
+                            return e
+                else:
+                    regs = o.get('elems') or o.get('units') or []
+                    i = call.get('idx', -1)
+                    if 0 <= i < len(regs):
+                        return regs[i]
+        return {'vals': [], 'win': [-1, -1]}
+
+    @staticmethod
+    def nvals_before(call):
+        return len(H.reg_before(call)['vals'])
+
+    @staticmethod
+    def conflict_resolution_put(call):
+        r = H.reg_before(call)
+        if call.get('fn') != 'put' or call.get('res') != 'ok' or len(r['vals']) < 2:
+            return False
+        w = [x for x in r['vals'] if x['id'] == r['win']]
+        return bool(w) and w[0]['v'] == call.get('val')
+
+    @staticmethod
+    def list_batch_with_later_insert(e):
+        seen = set()
+        for p in e.get('patches') or []:
+            k = tuple(p['obj'])
+            if p['act'] == 'Insert' and k in seen:
+                return True
+            if p['act'] in ('Insert', 'PutSeq', 'DeleteSeq'):
+                seen.add(k)
+        return False
+
+
 def match_known(k, desc, cls, obj):
     """A known finding matches when its 'check' name is among the failed checks (or its 'desc_re'
     matches the description) AND its class predicate (a python expression over cls) holds."""
@@ -340,7 +436,7 @@ def match_known(k, desc, cls, obj):
         return False
     if "class_expr" in k:
         try:
-            if not eval(k["class_expr"], {"re": re, "json": json}, {"c": cls, "e": cls.get("event", {})}):
+            if not eval(k["class_expr"], {"re": re, "json": json, "H": H}, {"c": cls, "e": cls.get("event", {})}):
                 return False
         except Exception:
             return False
